@@ -158,6 +158,8 @@ unsafe impl<#[may_dangle] T> Drop for Rc<T> {
 }
 
 unsafe fn drop_unreachable<T>(this: &mut Rc<T>) {
+    #[cfg(cactusref_verif)]
+    crate::__verif::bump(&crate::__verif::DROP_PLAIN);
     debug!("cactusref detected unreachable Rc");
     let forward = Link::forward(this.ptr);
     let backward = Link::backward(this.ptr);
@@ -192,11 +194,15 @@ unsafe fn drop_unreachable<T>(this: &mut Rc<T>) {
         // Move `T` out of the `RcBox`. Dropping an uninitialized `MaybeUninit`
         // has no effect.
         let inner = mem::replace(&mut (*rcbox).value, MaybeUninit::uninit());
+        #[cfg(cactusref_verif)]
+        crate::rc::RcBox::verif_poison_value(rcbox);
         // destroy the contained `T`.
         drop(inner.assume_init());
         // Move the links `HashMap` out of the `RcBox`. Dropping an uninitialized
         // `MaybeUninit` has no effect.
         let links = mem::replace(&mut (*rcbox).links, MaybeUninit::uninit());
+        #[cfg(cactusref_verif)]
+        crate::rc::RcBox::verif_poison_links(rcbox);
         // Destroy the heap-allocated links.
         drop(links.assume_init());
     }
@@ -214,6 +220,11 @@ unsafe fn drop_unreachable<T>(this: &mut Rc<T>) {
 }
 
 unsafe fn drop_cycle<T>(cycle: HashMap<Link<T>, usize>) {
+    #[cfg(cactusref_verif)]
+    {
+        crate::__verif::bump(&crate::__verif::DROP_CYCLE);
+        crate::__verif::add(&crate::__verif::DROP_CYCLE_MEMBERS, cycle.len());
+    }
     debug!(
         "cactusref detected orphaned cycle with {} objects",
         cycle.len()
@@ -288,6 +299,11 @@ unsafe fn drop_cycle<T>(cycle: HashMap<Link<T>, usize>) {
             // Move the links `HashMap` out of the `RcBox`. Dropping an
             // uninitialized `MaybeUninit` has no effect.
             let links = mem::replace(&mut (*rcbox).links, MaybeUninit::uninit());
+            #[cfg(cactusref_verif)]
+            {
+                crate::rc::RcBox::verif_poison_value(rcbox);
+                crate::rc::RcBox::verif_poison_links(rcbox);
+            }
             trace!("cactusref deconstructed member {:p} of orphan cycle", rcbox);
             // Move `T` and the `HashMap` out of the `RcBox` to be dropped after
             // busting the cycle.
@@ -361,6 +377,8 @@ unsafe fn drop_cycle<T>(cycle: HashMap<Link<T>, usize>) {
 // |      |----------| <--------|
 // |--------------------|
 unsafe fn drop_unreachable_with_adoptions<T>(this: &mut Rc<T>) {
+    #[cfg(cactusref_verif)]
+    crate::__verif::bump(&crate::__verif::DROP_ADOPTED);
     // Construct a forward and back link from `this` so we can
     // purge it from the adopted `links`.
     let forward = Link::forward(this.ptr);
@@ -410,11 +428,15 @@ unsafe fn drop_unreachable_with_adoptions<T>(this: &mut Rc<T>) {
         // Move `T` out of the `RcBox`. Dropping an uninitialized `MaybeUninit`
         // has no effect.
         let inner = mem::replace(&mut (*rcbox).value, MaybeUninit::uninit());
+        #[cfg(cactusref_verif)]
+        crate::rc::RcBox::verif_poison_value(rcbox);
         // destroy the contained `T`.
         drop(inner.assume_init());
         // Move the links `HashMap` out of the `RcBox`. Dropping an uninitialized
         // `MaybeUninit` has no effect.
         let links = mem::replace(&mut (*rcbox).links, MaybeUninit::uninit());
+        #[cfg(cactusref_verif)]
+        crate::rc::RcBox::verif_poison_links(rcbox);
         // Destroy the heap-allocated links.
         drop(links.assume_init());
     }
